@@ -2,12 +2,13 @@
 # usage: tryrefactor.sh <patch.diff> <PROP>...  -- applies a behaviour-preserving change to /repo, runs the given
 # checks (all must exit 0: no alarm on code where the properties hold) and ALWAYS restores /repo afterwards.
 set -u
+R=${VERIF_REPO:-/repo}
 PATCH=$1; shift
 export GOFLAGS=-mod=mod GOPROXY=off GOSUMDB=off GOTOOLCHAIN=local
-if [ -n "$(git -C /repo status --porcelain)" ]; then echo "repo not clean"; exit 9; fi
-git -C /repo apply "$PATCH" || { echo "patch does not apply"; exit 9; }
-trap 'git -C /repo checkout -- . ; git -C /repo clean -fdq' EXIT
-( cd /repo && go build ./... && go test -vet=off -count=1 ./... 2>&1 | tail -2 )
+if [ -n "$(git -C $R status --porcelain)" ]; then echo "repo not clean"; exit 9; fi
+git -C $R apply "$PATCH" || { echo "patch does not apply"; exit 9; }
+trap 'git -C $R checkout -- . ; git -C $R clean -fdq' EXIT
+( cd $R && go build ./... && go test -vet=off -count=1 ./... 2>&1 | tail -2 )
 for p in "$@"; do
   /verif/bin/check $p > /tmp/tryref_$$.log 2>&1; rc=$?
   echo "  $p exit=$rc"
